@@ -188,6 +188,11 @@ func Worker(arg string) int {
 		if i-1 < len(sc.Allow) {
 			t.AllowFailure = sc.Allow[i-1]
 		}
+		if i%2 == 1 {
+			// a generous timeout that never expires: an interruption must not be taken for an expiry
+			to := 90 * time.Second
+			t.Timeout = &to
+		}
 		tasks[i] = t
 		taskIdx[t.Name] = i
 	}
